@@ -24,7 +24,7 @@ impl Prop for C09 {
         "C09"
     }
     fn strategy(&self, tier: Tier) -> BoxedStrategy<C09Case> {
-        let spec = prop_oneof![5 => spec_strategy(), 1 => source_sink_strategy()].boxed();
+        let spec = prop_oneof![10 => spec_strategy(), 2 => source_sink_strategy(), 1 => finite_source_strategy()].boxed();
         (
             dripcase_strategy(
                 spec,
@@ -45,6 +45,13 @@ impl Prop for C09 {
         let spec = &case.drip.spec;
         let name = spec.name();
         ctx.class(format!("block={name}"));
+        {
+            use BlockSpec::*;
+            if matches!(spec, FileSourceU8 { len: 0, repeat: 255 } | FileSourceS24 { len: 0, repeat: 255 } | FileSourceF32 { len: 0, repeat: 255, .. } | SigMFSourceF32 { len: 0, repeat: 255, .. }) {
+                ctx.skip("infinite repeat of an empty file (out of domain, as in C16)");
+                return;
+            }
+        }
         let prep = prepare(&case.drip);
         let mut built = build_drip(&case.drip, &prep);
         let mut opts = drive_opts(&case.drip);
@@ -90,6 +97,15 @@ impl Prop for C09 {
             }
             ctx.class("retirement-checked");
         }
+        // (g) a finite source whose output is kept drained finishes: it must not answer
+        // 'call me again' (Again / Pending) for ever once everything is out
+        if !has_inputs && !infinite && spec.is_finite_source() && !log.outputs_closed && log.eof_at.is_none() {
+            let last = log.calls.last().map(|c| format!("{:?}", c.verdict));
+            ctx.fail(
+                format!("C09/never-finishes/{name}"),
+                format!("{name} ({spec:?}): a finite source with its output drained went quiet without ever reporting EOF; last verdict {last:?}"),
+            );
+        }
         // (e') downstream gone: a source/transformer with a full, ended output must not keep asking to be called
         if log.outputs_closed {
             ctx.class("downstream-dropped");
@@ -112,7 +128,7 @@ impl Prop for C09 {
         }
     }
     fn rule(&self) -> String {
-        "generated: every catalogue block plus sources/sinks (VectorSource, ConstantSource, SignalSource*, NullSink, VectorSink) under the C08 drip schedules (incl. stingy drain phases), optionally with the downstream ends dropped mid-run and with wait probing on. Per-call oracle on every work() call: (a) no over-consume/over-commit refusal; (b) every open stream of the block has exactly two handles after return; (c) a call without stream activity must not report a wait on a harness-owned stream that already satisfies the request - and a call that did move data and then reports such a wait must be followed by a call that makes progress -, and after the harness provides exactly what was asked on that stream alone the next call must make progress or ask for something else; (d) no 6 consecutive no-activity 'Again' answers with nothing changing; (e) once all inputs have ended and are drained the block returns EOF, or waits on an ended stream, or reports eof(); (f) conversely, after a verdict on which a runner retires the block - a wait on an ended input that holds less than what is asked for - no later call may produce output (in 30% of the cases the input writers leave as soon as everything is fed, while the block is still clogged). Non-trivial: a call with output full, or input and output both short, or the downstream dropped mid-run; distinct = hash of the case.".into()
+        "generated: every catalogue block plus sources/sinks (VectorSource, ConstantSource, SignalSource*, NullSink, VectorSink) under the C08 drip schedules (incl. stingy drain phases), optionally with the downstream ends dropped mid-run and with wait probing on. Per-call oracle on every work() call: (a) no over-consume/over-commit refusal; (b) every open stream of the block has exactly two handles after return; (c) a call without stream activity must not report a wait on a harness-owned stream that already satisfies the request - and a call that did move data and then reports such a wait must be followed by a call that makes progress -, and after the harness provides exactly what was asked on that stream alone the next call must make progress or ask for something else; (d) no 6 consecutive no-activity 'Again' answers with nothing changing; (e) once all inputs have ended and are drained the block returns EOF, or waits on an ended stream, or reports eof(); (f) conversely, after a verdict on which a runner retires the block - a wait on an ended input that holds less than what is asked for - no later call may produce output (in 30% of the cases the input writers leave as soon as everything is fed, while the block is still clogged); (g) a finite source (vector, file incl. files ending inside a sample and 24-bit samples, SigMF) whose output is kept drained reports EOF instead of answering Again/Pending for ever. Non-trivial: a call with output full, or input and output both short, or the downstream dropped mid-run; distinct = hash of the case.".into()
     }
     fn assumptions(&self) -> Vec<String> {
         vec![
